@@ -125,8 +125,9 @@ TagIndexShift(r) ==
   IN  /\ Len(r.obs.notary) < r.n
       /\ \E b \in BootOf(r.obs) : b.idx = -1 /\ b.st = "rec"
       /\ Cardinality(pub) >= need /\ Cardinality(pub \cap (1..(r.n - 2))) < need
-\* WitnessOrder: the leader's designation transaction needs >= 2 remote signatures (appended in map iteration order)
-TagWitnessOrder(r) == MajOf(r.n) - 1 >= 2
+\* WitnessOrder: the node refused a designation transaction of the leader for an invalid witness, and the witness needs
+\* >= 2 remote signatures (they are appended in map iteration order, notary.go:478-491)
+TagWitnessOrder(r) == MajOf(r.n) - 1 >= 2 /\ r.mem[1].badDesignate > 0
 Tags(r) == (IF TagIndexShift(r) THEN {"NotaryIndexShift"} ELSE {}) \cup (IF TagWitnessOrder(r) THEN {"WitnessOrder"} ELSE {})
 
 Zero4(d) == d.deploy = 0 /\ d.update = 0 /\ d.register = 0 /\ d.designate = 0
